@@ -29,6 +29,7 @@ import (
 //	set/add/del  header operation on w.Header()
 //	wh           w.WriteHeader(Code)
 //	w            w.Write(bytes): Hex when given, otherwise Len bytes derived from Seed (Kind 0 random, 1 text)
+//	fl           if f, ok := w.(http.Flusher); ok { f.Flush() } — whatever writer the handler was given
 type Op struct {
 	Op   string `json:"op"`
 	K    string `json:"k,omitempty"`
@@ -87,6 +88,10 @@ type Oracle struct {
 	Match [][2]string `json:"match"` // content type ↦ "1"/"0": the configured regexp on every candidate value
 	Up    Blob        `json:"up"`    // everything the scripted handler passed to Write, concatenated
 	NW    int         `json:"nw"`    // number of Write calls
+	// CanFlush: the writer handed to the scripted handler behind NewGzipHandler implemented http.Flusher (only
+	// meaningful when the script has a flush op; the bare reference run flushes exactly when this is true, so
+	// that both runs are the same handler behaviour)
+	CanFlush bool `json:"canflush"`
 }
 
 type Out struct {
@@ -118,10 +123,15 @@ func chunkBytes(o Op) ([]byte, error) {
 	return b[:o.Len], nil
 }
 
-func validCode(c int) bool { return c >= 200 && c <= 599 }
+func validCode(c int, layer string) bool {
+	// 1xx (informational, then a final status) only over the real server: the recorder takes the first code as final
+	return c >= 200 && c <= 599 || layer == "srv" && (c == 102 || c == 103)
+}
 
-// script builds the upstream handler; up receives every byte passed to Write.
-func script(in *In, chunks [][]byte, up *bytes.Buffer, nw *int) http.Handler {
+// script builds the upstream handler; up receives every byte passed to Write. A flush op flushes when the
+// writer offers http.Flusher (probe != nil: record whether it did) or, for the reference run (probe == nil),
+// exactly when mirror says the probed run could.
+func script(in *In, chunks [][]byte, up *bytes.Buffer, nw *int, probe *bool, mirror bool) http.Handler {
 	return http.HandlerFunc(func(w http.ResponseWriter, r *http.Request) {
 		ci := 0
 		for _, o := range in.Ops {
@@ -134,6 +144,16 @@ func script(in *In, chunks [][]byte, up *bytes.Buffer, nw *int) http.Handler {
 				w.Header().Del(o.K)
 			case "wh":
 				w.WriteHeader(o.Code)
+			case "fl":
+				f, ok := w.(http.Flusher)
+				if probe != nil {
+					*probe = ok
+				} else {
+					ok = ok && mirror
+				}
+				if ok {
+					f.Flush()
+				}
 			case "w":
 				b := chunks[ci]
 				ci++
@@ -271,12 +291,12 @@ func validValue(s string) bool {
 func doSrv(in *In, path string, id string) Resp {
 	r, err := mkReq(in, server().URL+path)
 	if err != nil {
-		return Resp{Err: err.Error()}
+		return Resp{Err: err.Error(), Hdr: [][2]string{}}
 	}
 	r.Header.Set("X-Verif-Case", id)
 	resp, err := client.Do(r)
 	if err != nil {
-		return Resp{Err: "client: " + err.Error()}
+		return Resp{Err: "client: " + err.Error(), Hdr: [][2]string{}}
 	}
 	defer resp.Body.Close()
 	body, err := io.ReadAll(resp.Body)
@@ -290,7 +310,7 @@ func doSrv(in *In, path string, id string) Resp {
 func doRec(in *In, h http.Handler) Resp {
 	r, err := mkReq(in, "http://fabio.test/")
 	if err != nil {
-		return Resp{Err: err.Error()}
+		return Resp{Err: err.Error(), Hdr: [][2]string{}}
 	}
 	rec := httptest.NewRecorder()
 	h.ServeHTTP(rec, r)
@@ -325,8 +345,9 @@ func runCase(in *In) (*Out, error) {
 			if !validToken(o.K) || !validValue(o.V) {
 				return nil, fmt.Errorf("header op %q %q", o.K, o.V)
 			}
+		case "fl":
 		case "wh":
-			if !validCode(o.Code) {
+			if !validCode(o.Code, in.Layer) {
 				return nil, fmt.Errorf("status %d", o.Code)
 			}
 		case "w":
@@ -345,29 +366,32 @@ func runCase(in *In) (*Out, error) {
 	}
 	var up bytes.Buffer
 	nw := 0
+	canFlush := false
 	out := &Out{}
 	switch in.Layer {
 	case "rec":
-		out.Base = doRec(in, script(in, chunks, &up, &nw))
-		out.Got = doRec(in, gzip.NewGzipHandler(script(in, chunks, nil, nil), re))
+		out.Got = doRec(in, gzip.NewGzipHandler(script(in, chunks, nil, nil, &canFlush, false), re))
+		out.Base = doRec(in, script(in, chunks, &up, &nw, nil, canFlush))
 	case "srv":
 		id := strconv.FormatUint(caseSeq.Add(1), 10)
-		cases.Store(id, &srvCase{
-			wrapped: gzip.NewGzipHandler(script(in, chunks, nil, nil), re),
-			bare:    script(in, chunks, &up, &nw),
-		})
+		c := &srvCase{wrapped: gzip.NewGzipHandler(script(in, chunks, nil, nil, &canFlush, false), re)}
+		cases.Store(id, c)
 		defer cases.Delete(id)
-		out.Base = doSrv(in, "/b", id)
 		out.Got = doSrv(in, "/w", id)
+		cases.Store(id, &srvCase{wrapped: c.wrapped, bare: script(in, chunks, &up, &nw, nil, canFlush)})
+		out.Base = doSrv(in, "/b", id)
 	default:
 		return nil, fmt.Errorf("layer %q", in.Layer)
 	}
-	if out.Base.Err != "" || out.Got.Err != "" {
+	if out.Base.Err != "" {
+		// the reference run itself failed: the script is not a well-formed response (e.g. a wrong declared length)
 		return nil, fmt.Errorf("transport: base=%q got=%q", out.Base.Err, out.Got.Err)
 	}
+	// a failure of the wrapped run only (truncated body, protocol error) is an observable: Got.Err is shipped
 	// oracle: sniffing and the regexp are Go library behaviour the model takes as parameters
 	out.Oracle.Up = blob(up.Bytes())
 	out.Oracle.NW = nw
+	out.Oracle.CanFlush = canFlush
 	if len(chunks) > 0 {
 		out.Oracle.Sniff = http.DetectContentType(chunks[0])
 	}
